@@ -688,6 +688,7 @@ type Frame struct {
 	iterCells map[ssa.Value]*Cell
 	loopInfos map[*ssa.BasicBlock]*loopInfo
 	loopAlias map[*ssa.BasicBlock]map[string]string
+	loopEntry map[*ssa.BasicBlock]*State
 	pendingCells []pendingCell // cells created while defining phis: installed into the block's entry state
 }
 
